@@ -13,7 +13,7 @@ EXTENDS Contract, Json
 
 CONSTANTS N, NS, NP, NW,            \* objects, traced / untraced / weak slots per object
           FIN, WEAK, DBG,           \* feature switches of the build that is modelled
-          MAXRC, MaxRoots, MaxWRoots,
+          MAXRC, MAXWC, MaxRoots, MaxWRoots,
           MaxOps, MaxFaults, MaxTraceK,
           BUG_STALE_TC, BUG_NESTED_FLAGS, \* pre-fix behaviour (regression configs only)
           OPS,                      \* subset of Env operations enabled in this configuration
@@ -452,7 +452,6 @@ EnvFAgain(s, o) ==
 
 
 \* ---- weak pointers (weak/mod.rs)
-MAXWC == 32767
 EnvDowngrade(s, o) ==
   LET s1 == Emit(s, CallEv(s, [op |-> "downgrade", o |-> o]))
       s2 == IF s1.hm[o] THEN s1
@@ -506,6 +505,26 @@ EnvCollect(s, ft) ==
   IN IF s.col \/ ~s.buf THEN s2 ELSE StartCollect(s2)
 
 FaultPlans(s) == IF s.nfaults < MaxFaults /\ s.stack = <<>> THEN {<<k, j>> : k \in 0..MaxTraceK, j \in 0..NS} ELSE {}
+
+\* ---- saturation (counter_marker.rs / weak_counter_marker.rs): bulk operations bring a count to the limit in one step
+PanicMax(s, c) ==      \* a pointer-creating operation at the limit: documented panic, nothing changes
+  LET s1 == Emit(s, CallEv(s, c)) IN Emit(s1, [RetEv(s1, c.op, <<>>) EXCEPT !.panic = "max"])
+EnvCloneN(s, o, n) ==
+  LET s1 == Emit(s, CallEv(s, [op |-> "clonen", o |-> o, n |-> n]))
+      s2 == Unbuffer([s1 EXCEPT !.rc[o] = @ + n, !.roots[o] = @ + n], o)
+  IN Emit(s2, RetEv(s2, "clonen", <<>>))
+EnvDropN(s, o, n) ==   \* n handles dropped one after the other; never the last pointer
+  LET s1 == Emit([s EXCEPT !.roots[o] = @ - n], CallEv(s, [op |-> "dropn", o |-> o, n |-> n]))
+      s2 == Buffer([s1 EXCEPT !.rc[o] = @ - n], o)
+  IN Emit(s2, RetEv(s2, "dropn", <<>>))
+EnvCloneWN(s, o, n) ==
+  LET s1 == Emit(s, CallEv(s, [op |-> "clonewn", o |-> o, n |-> n]))
+      s2 == [s1 EXCEPT !.meta[o].wc = @ + n, !.wroots[o] = @ + n]
+  IN Emit(s2, RetEv(s2, "clonewn", <<>>))
+EnvDropWN(s, o, n) ==
+  LET s1 == Emit([s EXCEPT !.wroots[o] = @ - n], CallEv(s, [op |-> "dropwn", o |-> o, n |-> n]))
+      s2 == [s1 EXCEPT !.meta[o].wc = @ - n]
+  IN Emit(s2, RetEv(s2, "dropwn", <<>>))
 
 \* callback decisions
 EnvReturn(s) == LET f == STop(s) IN SPop(Emit(s, [e |-> "cbx", cb |-> f.x, o |-> f.o, panic |-> FALSE]))
@@ -580,12 +599,29 @@ ASetW == /\ "setw" \in OPS /\ WEAK /\ Budget(st) /\ Full(st)
          /\ \E a \in Acc(st), o \in Objs : \E i \in 1..NW : st.fw[a][i] = 0 /\ st.wroots[o] > 0 /\ Do(EnvSetW(Begin(st), a, i, o))
 AClearW == /\ "clearw" \in OPS /\ WEAK /\ Budget(st) /\ Full(st)
            /\ \E a \in Acc(st) : \E i \in 1..NW : st.fw[a][i] # 0 /\ Do(EnvClearW(Begin(st), a, i))
+Top0 == st.stack = <<>>
+ASat == /\ "sat" \in OPS /\ Budget(st) /\ Top0
+        /\ \/ \E o \in Objs, d \in {0, 1} : st.roots[o] > 0 /\ MAXRC - st.rc[o] - d > 0 /\ st.rc[o] < MAXRC - 10 /\ Do(EnvCloneN(Begin(st), o, MAXRC - st.rc[o] - d))
+           \/ \E o \in Objs : st.roots[o] >= 3 /\ st.mark[o] \in {"N", "P"} /\ Do(EnvDropN(Begin(st), o, st.roots[o] - 1))
+           \/ \E o \in Objs, d \in {0, 1} : WEAK /\ st.wroots[o] > 0 /\ st.meta[o].wc < MAXWC - 10 /\ Do(EnvCloneWN(Begin(st), o, MAXWC - st.meta[o].wc - d))
+           \/ \E o \in Objs : WEAK /\ st.wroots[o] >= 3 /\ Do(EnvDropWN(Begin(st), o, st.wroots[o] - 1))
+           \* pointer-creating operations at the limit panic
+           \/ \E o \in Objs : st.roots[o] > 0 /\ st.rc[o] = MAXRC /\ Do(PanicMax(Begin(st), [op |-> "clone", o |-> o]))
+           \/ \E o \in Objs : WEAK /\ st.wroots[o] > 0 /\ WeakStrong(st, o) = MAXRC /\ Do(PanicMax(Begin(st), [op |-> "upgrade", o |-> o]))
+           \/ \E a \in Acc(st), k \in Kinds, b \in Objs : \E i \in DOMAIN SlotsOf(st, a, k) :
+                SlotsOf(st, a, k)[i] = 0 /\ st.roots[b] > 0 /\ st.rc[b] = MAXRC /\ Do(PanicMax(Begin(st), [op |-> "set", a |-> a, k |-> k, i |-> i, b |-> b]))
+           \/ \E o \in Objs : WEAK /\ st.roots[o] > 0 /\ st.hm[o] /\ st.meta[o].wc = MAXWC /\ Do(PanicMax(Begin(st), [op |-> "downgrade", o |-> o]))
+           \/ \E o \in Objs : WEAK /\ st.wroots[o] > 0 /\ st.meta[o].wc = MAXWC /\ Do(PanicMax(Begin(st), [op |-> "clonew", o |-> o]))
+           \* one more ordinary clone / upgrade just below the limit
+           \/ \E o \in Objs : st.roots[o] >= MaxRoots /\ st.rc[o] = MAXRC - 1 /\ Do(EnvClone(Begin(st), o))
+           \/ \E o \in Objs : WEAK /\ st.wroots[o] > 0 /\ st.roots[o] >= MaxRoots /\ WeakStrong(st, o) = MAXRC - 1 /\ Do(EnvUpgrade(Begin(st), o))
+           \/ \E o \in Objs : WEAK /\ st.wroots[o] >= MaxWRoots /\ st.meta[o].wc = MAXWC - 1 /\ Do(EnvCloneW(Begin(st), o))
 AReturn == /\ st.stack # <<>> /\ CbTop(st) # "closure" /\ Do(EnvReturn([st EXCEPT !.ev = <<>>]))
 AReturnClosure == /\ st.stack # <<>> /\ CbTop(st) = "closure"
                   /\ \E sw \in (IF NW > 0 THEN BOOLEAN ELSE {FALSE}) : Do(EnvReturnClosure([st EXCEPT !.ev = <<>>], sw))
 APanic == /\ st.stack # <<>> /\ st.nfaults < MaxFaults /\ ~Unwinding(st) /\ Do(EnvPanic([st EXCEPT !.ev = <<>>]))
 
-Next == ANewCyc \/ ASaveW \/ AWProbe \/ ASetCfg \/ AReturnClosure \/ APut \/ ATake \/ ADowngrade \/ AUpgrade \/ AUpgradeF \/ ACloneW \/ ADropW \/ ASetW \/ AClearW \/ ANew \/ AClone \/ ACloneF \/ ADrop \/ ASet \/ AClear \/ AMark \/ ACollect \/ AUnwrap \/ ADropVal \/ AFAgain \/ AReturn \/ APanic
+Next == ASat \/ ANewCyc \/ ASaveW \/ AWProbe \/ ASetCfg \/ AReturnClosure \/ APut \/ ATake \/ ADowngrade \/ AUpgrade \/ AUpgradeF \/ ACloneW \/ ADropW \/ ASetW \/ AClearW \/ ANew \/ AClone \/ ACloneF \/ ADrop \/ ASet \/ AClear \/ AMark \/ ACollect \/ AUnwrap \/ ADropVal \/ AFAgain \/ AReturn \/ APanic
 
 Init == /\ st = Init0
         /\ mon = Mon(MonInit, ResetEv)
